@@ -551,14 +551,50 @@ example : ∀ n ∈ fAddMul.nodes, n.outs.Nodup := by decide
 /-- **No positional argument is lost.**  For every operator signature (any number of inputs / attributes, with or
 without a variadic input), every list of positional arguments and keyword arguments: if
 `_partition_inputs_attributes` returns (instead of raising `TypeError`), every positional argument of the traced
-call is an input or the value of an attribute of the node. -/
-theorem partition_keeps_positionals (sig : List SigParam) (args : List String) (kwargs : List (String × String))
-    (I : List String) (A : List (String × String)) (h : partition sig args kwargs = .ok (I, A)) :
+call is an input or the value of an attribute of the node.  (Holds for both behaviours of the helper; `~` is the
+placeholder token and not an argument.) -/
+theorem partition_keeps_positionals (ph : Bool) (sig : List SigParam) (args : List String)
+    (kwargs : List (String × String)) (I : List String) (A : List (String × String))
+    (hne : ∀ a ∈ args, a ≠ "~") (h : partitionWith ph sig args kwargs = .ok (I, A)) :
     ∀ a ∈ args, a ∈ I ∨ a ∈ A.map (·.2) := by
-  unfold partition at h
+  unfold partitionWith at h
   split at h
   · cases h
-  · exact (partGo_keeps sig args kwargs [] [] I A h).1
+  · exact (partGo_keeps ph sig args kwargs [] [] I A h hne).1
+
+/-- **Every input sits at the position of its parameter** (helper with placeholders, commit b7afd5e).  For a
+signature whose inputs (none variadic) precede its attributes — the shape of every `OpSignature` — and every call:
+the node's inputs are, position by position, the positional argument at that index, else the keyword argument of
+that parameter's name, else absent; absent inputs at the end are dropped.  In particular an input given by keyword
+after an omitted optional input stays in its own slot (`Clip(x, max=hi)` = `Clip(x, ∅, hi)`). -/
+theorem partition_input_positions (ins ats : List SigParam) (args : List String) (kwargs : List (String × String))
+    (I : List String) (A : List (String × String))
+    (hi : ∀ p ∈ ins, p.isInput = true ∧ p.variadic = false) (ha : ∀ p ∈ ats, p.isInput = false)
+    (h : partitionWith true (ins ++ ats) args kwargs = .ok (I, A)) :
+    I = stripPh (expectedFrom ins args kwargs) := by
+  unfold partitionWith at h
+  split at h
+  · cases h
+  · simpa using partGo_positions ins ats args kwargs [] [] I A hi ha h
+
+def sigClip : List SigParam :=
+  [⟨"input", true, false, true, false⟩, ⟨"min", true, false, false, false⟩, ⟨"max", true, false, false, false⟩]
+
+example : partitionWith true sigClip ["x"] [("max", "hi")] = .ok (["x", "~", "hi"], []) := by decide
+example : partitionWith true sigClip ["x"] [("min", "lo")] = .ok (["x", "lo"], []) := by decide
+example : partitionWith true sigClip ["x"] [] = .ok (["x"], []) := by decide
+
+/-- **Before commit b7afd5e** (helper without placeholders, D20g) the statement was false: `Clip(x, max=hi)` puts
+`hi` into the `min` slot. -/
+theorem partition_input_positions_prefix_refuted :
+    ¬ (∀ (ins ats : List SigParam) (args : List String) (kwargs : List (String × String)) (I : List String)
+        (A : List (String × String)), (∀ p ∈ ins, p.isInput = true ∧ p.variadic = false) →
+        (∀ p ∈ ats, p.isInput = false) → partitionWith false (ins ++ ats) args kwargs = .ok (I, A) →
+        I = stripPh (expectedFrom ins args kwargs)) := by
+  intro h
+  have := h sigClip [] ["x"] [("max", "hi")] ["x", "hi"] [] (by decide) (by decide) (by decide)
+  revert this
+  decide
 
 /-- The split depends on the signature **of the call's own opset version**: with the signature of another version
 the same call is split differently (`ReduceMax(x, [0])`: `axes` is an input from opset 18 on, an attribute before —
